@@ -151,3 +151,19 @@ Example C01_contract_example_64k :
     [SSetLimit (2 * 65536 + 57344 + 65536); SOffer 1 8000; SOffer 2 8192; SPoll 10; SOffer 2 8192; SPoll 2; SPoll 10; SPoll 10] = true.
 Proof. split; [|vm_compute; reflexivity].
   unfold handover_ok, geometry_ok. repeat split; try (exists 16; repeat split); try discriminate; try reflexivity. Qed.
+
+(* ---- why the contract stops before the last term (term count 2^31 - 1): known finding last-term-exclusive-overwrite.
+   ExclusivePublication, hand-over 64 bytes before the end of the last term: offer 1 (100 bytes) does not fit -
+   MaxPositionExceeded, padding to the term end; the subscriber consumes the padding; offer 2 (8 bytes) is ACCEPTED over
+   the padding (returns the end of the position space) and is never delivered: the final poll finds nothing, both
+   positions are equal, accepted has one message, delivered none.  The real ExclusivePublication does the same
+   (corpus/C01/last-term-exclusive-overwrite.json). ---- *)
+Example C01_last_term_exclusive_witness :
+  exists s0, sys0_exclusive 0 1024 64 11 22 2147483647 960 = Ok s0 /\
+  let ops := [SSetLimit 2199023256512; SSetConnected true; SOffer 1 100; SPoll 10; SOffer 2 8; SPoll 10; SPoll 10] in
+  let sp := spec_run (sgeom_of 1024 64 2147483647 960) spec0 (sys_events exclusive Release harness_rv s0 ops) in
+  map snd (sp_acc sp) = [2199023255552] /\ sp_del sp = [] /\
+  im_pos (sy_img (sys_run exclusive Release harness_rv s0 ops)) = 2199023255552 /\
+  xpub_position Release (sy_pub (sys_run exclusive Release harness_rv s0 ops)) = Ok 2199023255552 /\
+  contract exclusive Release harness_rv s0 ops = false.
+Proof. eexists. split; [reflexivity|]. vm_compute. repeat split; reflexivity. Qed.
